@@ -141,6 +141,10 @@ ASSUME Murmur3H1(<<84, 104, 101, 32, 113, 117, 105, 99, 107, 32, 98, 114, 111, 1
 \* Cassandra sign example: 00104327529fb645dd00b883ec39ae448bb800000400066a6b00 -> -9223371632693506265
 ASSUME H1Ascii(<<0, 16, 67, 39, 82, 159, 182, 69, 221, 0, 184, 131, 236, 57, 174, 68, 139, 184, 0, 0, 4, 0, 6,
                  106, 107, 0>>) = <<45, 57, 50, 50, 51, 51, 55, 49, 54, 51, 50, 54, 57, 51, 53, 48, 54, 50, 54, 53>>
+\* a 16-byte key whose first hash word is Long.MIN_VALUE (found by inverting the one-block hash);
+\* Cassandra assigns it Long.MAX_VALUE
+MinTokenKey == <<223, 231, 111, 82, 2, 63, 173, 76, 130, 184, 97, 194, 198, 92, 122, 107>>
+ASSUME Murmur3H1(MinTokenKey) = MinLongW /\ Murmur3TokenW(MinTokenKey) = MaxLongW
 \* RandomPartitioner reference (python driver): md5("test") = 098f6bcd4621d373cade4e832627b4f6
 \*   -> 12707736894140473154801792860916528374
 ASSUME RandomTokenDigits(<<9, 143, 107, 205, 70, 33, 211, 115, 202, 222, 78, 131, 38, 39, 180, 246>>) =
